@@ -322,8 +322,11 @@ class Gen:
             if r.random() < 0.15:
                 s, t = opaque(ARRAY, [argT(num(1)), argC(cval(2))]), opaque(ARRAY, [argT(num(1)), argT(num(0))])
         elif shape == "flags":
+            arr = opaque(ARRAY, [argT(num(1)), argC(cval(2))])       # affine: non-copyable, droppable
             lin = [opaque(QUBIT), self.tv[3], boundT(1, 0, 0), tup(opaque(QUBIT)), opaque(ARRAY, [argT(opaque(QUBIT)), argC(cval(2))]),
-                   struct(43), num(1), self.tv[0], self.tv[4]]
+                   struct(43), num(1), self.tv[0], self.tv[4],
+                   arr, arr, self.tv[4], boundT(0, 0, 1), tup(arr, num(1)), struct(41), opaque(OPTION, [argT(arr)]),
+                   opaque(ARRAY, [argT(self.tv[0]), argC(self.cv[0])])]
             n = r.choice([1, 2])
             i1 = [(r.choice(lin), r.choice([0, 1, 2])) for _ in range(n)]
             i2 = [(t_ if r.random() < 0.7 else r.choice(lin), f if r.random() < 0.5 else r.choice([0, 1, 2])) for t_, f in i1]
